@@ -117,6 +117,9 @@ type pubNodeBase struct {
 
 	// msgChan is an internal channel where messages from msgFetcher are collected
 	msgChan chan *Message
+	// done is closed by the cleanup function, i.e. once nobody will call the
+	// trigger (and thus receive from msgChan) anymore.
+	done chan struct{}
 }
 
 // Trigger sets up 2 goroutines, one that listens to the external error channel
@@ -145,6 +148,8 @@ func (n *pubNodeBase) Trigger(
 
 	n.running = true
 	n.msgChan = make(chan *Message)
+	done := make(chan struct{})
+	n.done = done
 	internalErrChan := make(chan error)
 
 	if externalErrChan != nil {
@@ -193,6 +198,10 @@ func (n *pubNodeBase) Trigger(
 	cleanup := func() {
 		// TODO make sure spawned goroutines are stopped and internal channels
 		//  are drained
+		// signal InjectControlMessage (which holds the lock while it waits for
+		// the trigger to receive the message) that nobody is receiving anymore,
+		// otherwise it would block this cleanup and be blocked by it forever
+		close(done)
 		n.cleanup(ctx, logger)
 	}
 
@@ -214,6 +223,8 @@ func (n *pubNodeBase) InjectControlMessage(ctx context.Context, msgType ControlM
 	select {
 	case <-ctx.Done():
 		return ctx.Err()
+	case <-n.done:
+		return cerrors.New("tried to inject control message but PubNode stopped running")
 	case n.msgChan <- &Message{controlMessageType: msgType, Record: r}:
 		return nil
 	}
